@@ -75,6 +75,7 @@ wf MC_wf_mut_ctxfirst.cfg           gen 2 2 '{"panicW_CTX"}'  1 OptsCore TRUE TR
 wf MC_wf_mut_nopanicjoin.cfg  pp  2 1 '{"panicErr"}' 1 OptsAbort TRUE TRUE TRUE  TRUE nopanicjoin  Spec Settles
 
 # ---- WgErrCtl: controllable schedules ---------------------------------------------------------
+NOCANCEL='{}'
 ctl() { # name constructs Ns Ks fkinds maxfaults maxpos optset colls depth emission
 cat > $1 <<EOF
 SPECIFICATION Spec
@@ -87,6 +88,7 @@ CONSTANTS
   MaxFaultPos = $7
   OptSet <- $8
   Colls = $9
+  CancelModes = ${CANCEL:-$NOCANCEL}
   Depth = ${10}
   ExcludedConsulted = TRUE
   Mut = "none"
@@ -105,6 +107,8 @@ ctl Ctl_wg_edge.cfg '{"pp", "map", "gen"}' '{0, 1, 2, 3, 4}' '{1, 2, 3}' '{"err"
 ctl Ctl_wg_edge_full.cfg "$ALLC" '{0, 1, 2, 3, 4, 5}' '{1, 2, 3}' '{"err", "panicErr", "skip", "eof", "excl", "panicW_EOF"}' 2 5 OptsCore '{"default"}' 9 "$EDGE"
 # the abort bound: inputs long enough for "k more items" and "the rest of the input" to differ (n >= 2k+1)
 ctl Ctl_wg_abort.cfg "$ALLC" '{5, 6, 7, 8}' '{2, 3}' '{"err", "wrapped", "panicErr", "panicStr", "panicOther", "panicW_SKIP", "panicW_EOF"}' 1 3 OptsAbort '{"default", "custom"}' 6 "$EDGE"
+# caller cancel / consumer Close while user functions are held, then the held ones fail (err, wrapped, panicErr)
+CANCEL='{0, 1}' ctl Ctl_wg_cancel.cfg "$ALLC" '{2, 3, 4}' '{2, 3}' '{"err", "wrapped", "panicErr"}' 2 3 OptsNoExc '{"default"}' 5 "$EDGE"
 # random schedules (tlc -simulate)
 ctl Ctl_wg_sim.cfg "$ALLC" '{0, 1, 2, 3, 4, 5, 6, 7, 8}' '{1, 2, 3, 4}' "$KALL" 2 8 OptsAll '{"default", "custom"}' 12 "$ALL"
 
